@@ -619,6 +619,67 @@ theorem pipeline_load_env_final_seq (c : Pipeline.Cfg) (docs : List KVs) (out : 
           | panic e => rw [hN] at hfin; simp [Pipeline.ofC11] at hfin
     · cases h3
 
+/-- `resolveServicesEnvironment` leaves a mapping-form `environment` alone (`serviceConfig["environment"].([]any)` fails) -/
+theorem pipeline_resolveEnvironment_service_map (env : List (String × String)) (dict svcs cfg m : KVs)
+    (n : String) (hs : Val.lookup "services" dict = some (.map svcs)) (hn : Val.lookup n svcs = some (.map cfg))
+    (he : Val.lookup "environment" cfg = some (.map m)) :
+    ∃ svcs', Val.lookup "services" (Pipeline.resolveEnvironment env dict) = some (.map svcs') ∧
+      Val.lookup n svcs' = some (.map cfg) := by
+  refine ⟨svcs.map fun kv => (kv.1, Pipeline.resolveServiceEnv env kv.2), ?_, ?_⟩
+  · unfold Pipeline.resolveEnvironment Secrets.resolveConfigsEnv Secrets.resolveSecretsEnv
+    rw [lookup_services_resolveSection _ _ _ _ (by decide), lookup_services_resolveSection _ _ _ _ (by decide)]
+    unfold Pipeline.resolveServicesEnv
+    simp only [hs]
+    exact Val.lookup_insert_self _ _ _
+  · rw [lookup_map_services, hn, Option.map_some]
+    simp only [Pipeline.resolveServiceEnv, he]
+
+/-- **pipeline_load_env_final_map.**  The same clause for the mapping form: in the model `Pipeline.load` returns (default
+    options) a mapping-form `environment` is the tree of C16's `normalizeEnv y` — `k:` (null) has taken the project
+    environment's value when there is one and stays null otherwise; `ResolveEnvironment` did not touch it. -/
+theorem pipeline_load_env_final_map (c : Pipeline.Cfg) (docs : List KVs) (out : KVs)
+    (hnorm : c.opts.skipNormalization = false) (h : Pipeline.load c docs = .ok out) :
+    ∃ dict, ∀ (svcs cfg : KVs) (kvs : List (Key × Option Str)) (n : String), Val.lookup "services" dict = some (.map svcs) →
+        Val.lookup n svcs = some (.map cfg) → Val.lookup "environment" cfg = some (.map (mapVal kvs)) →
+        ∃ svcs' cfg', Val.lookup "services" out = some (.map svcs') ∧ Val.lookup n svcs' = some (.map cfg') ∧
+          Val.lookup "environment" cfg' = some (.map (mapVal (kvs.map (normalizePair (penvOf c.env))))) := by
+  unfold Pipeline.load at h
+  split at h
+  · cases h
+  · obtain ⟨m, hm, hfin⟩ := out_bind_ok h
+    unfold Pipeline.loadYamlModel at hm
+    obtain ⟨d0, hd0, hfm⟩ := out_bind_ok hm
+    unfold Pipeline.finishModel at hfm
+    obtain ⟨d1, hd1, h1⟩ := out_bind_ok hfm
+    obtain ⟨d2, hd2, h2⟩ := out_bind_ok h1
+    obtain ⟨d3, hd3, h3⟩ := out_bind_ok h2
+    unfold Pipeline.envStage at h3
+    split at h3
+    · rename_i kvs0
+      simp only [Pipeline.Out.ok.injEq] at h3
+      subst h3
+      refine ⟨kvs0, fun svcs cfg kvs n hs hn he => ?_⟩
+      obtain ⟨svcs1, hs1, hn1⟩ := pipeline_resolveEnvironment_service_map c.env kvs0 svcs cfg _ n hs hn he
+      unfold Pipeline.finishLoad at hfin
+      simp only [hnorm] at hfin
+      split at hfin
+      · cases hfin
+      · split at hfin
+        · cases hfin
+        · simp only [Bool.false_eq_true, if_false] at hfin
+          cases hN : C11.normalize c.clean c.env (Val.insert "name" (.str c.projectName) (Pipeline.resolveEnvironment c.env kvs0)) with
+          | ok d' =>
+            rw [hN] at hfin
+            simp only [Pipeline.ofC11, Pipeline.Out.ok.injEq] at hfin
+            subst hfin
+            have hs2 : Val.lookup "services" (Val.insert "name" (.str c.projectName) (Pipeline.resolveEnvironment c.env kvs0)) = some (.map svcs1) := by
+              rw [Val.lookup_insert_ne (by decide)]; exact hs1
+            obtain ⟨svcs', cfg', h1', h2', h3'⟩ := normalize_env_clause c.clean c.env _ d' svcs1 _ n _ hN hs2 hn1 he
+            exact ⟨svcs', cfg', h1', h2', by rw [h3', pipeline_normalize_map c.env kvs]⟩
+          | err e => rw [hN] at hfin; simp [Pipeline.ofC11] at hfin
+          | panic e => rw [hN] at hfin; simp [Pipeline.ofC11] at hfin
+    · cases h3
+
 end PipelineNormalize
 
 /-! ## non-vacuity -/
